@@ -158,7 +158,7 @@ fn c03_node(u: &mut U, depth: u8, budget: &mut usize) -> c03::Node {
         let v = (byte(u) % 50) as i64;
         let e = match b % 7 {
             0 => Effect::None,
-            1 => Effect::Bump,
+            1 => if k % 2 == 0 { Effect::Bump } else if v % 2 == 0 { Effect::Hold(k) } else { Effect::EntryInsert(k, 150 + v) },
             2 | 3 => Effect::Insert(k, v),
             4 => Effect::Set(k, 100 + v),
             5 => Effect::InitInsert(k, 50 + v),
